@@ -289,7 +289,16 @@ class ValidateStream:
         r = rng.random()
         if r < 0.06:
             n = rng.choice([65535, 65536, 65534])
-            base = "a" * n
+            x = rng.random()
+            if x < 0.35:
+                # multi-byte characters: the limit is on the ENCODED length (65535 bytes), not on the character count
+                ch, w = rng.choice([("é", 2), ("€", 3), ("😀", 4)])
+                k = n // w
+                base = ch * k + "a" * (n - k * w)                    # exactly n bytes, far fewer characters
+                if rng.random() < 0.4:
+                    base = ch * rng.choice([32768, 40000, 65535])   # <= 65535 characters, more than 65535 bytes
+            else:
+                base = "a" * n
             if rng.random() < 0.3:
                 base = "+/" + base[2:]
             return base
